@@ -515,6 +515,23 @@ fn check_event(acc: &mut Acc, s: &Schema, label: &str, content: &Value, redacted
                         Ok(Some(c)) if c == ev["content"] => {}
                         other => bad.push((2, format!("get_field(\"content\") gives {other:?}"))),
                     }
+                    // a field that is `null` reads like an absent one, as a full parse into an Option does
+                    {
+                        let mut with_null = ev.clone();
+                        with_null.as_object_mut().unwrap().insert("org.example.null".to_owned(), Value::Null);
+                        let mut t = String::new();
+                        render(&with_null, reversed, &mut t);
+                        #[derive(serde::Deserialize)]
+                        struct Full {
+                            #[serde(rename = "org.example.null")]
+                            f: Option<String>,
+                        }
+                        let full = serde_json::from_str::<Full>(&t).map(|f| f.f).map_err(|e| e.to_string());
+                        let field = Raw::<AnyTimelineEvent>::from_json_string(t).map_err(|e| e.to_string()).and_then(|r| r.get_field::<String>("org.example.null").map_err(|e| e.to_string()));
+                        if field != full || field != Ok(None) {
+                            bad.push((2, format!("get_field::<String> of a null field gives {field:?}, a full parse into Option<String> gives {full:?}")));
+                        }
+                    }
                     if !matches!(raw.get_field::<Value>("org.example.absent"), Ok(None)) {
                         bad.push((2, "get_field of an absent field is not Ok(None)".into()));
                     }
